@@ -19,11 +19,19 @@ MANIFEST = dict(
          "size-1 items windowed_iter takes while glomit runs), runs depend only on the prefix pulled, "
          "first()/all() terminate exactly when a finite prefix determines their answer; (builders) on a heap "
          "of spec objects _add_op and Invoke.constants/specs/star allocate and never write an existing object, "
-         "for every history of builder calls. Per-run facts obligation by `decide` on tables regenerated from "
+         "for every history of builder calls; (source) the effect of a run on the caller's source object is "
+         "exactly the pulled prefix: a pipeline started at position p is the pipeline over the suffix, the "
+         "position never moves back, next() afterwards finds the suffix after the pulled prefix, close() is never "
+         "called, every later pipeline over the same object (a later glom call, another value of a dict spec) "
+         "yields the composition over the remaining items, a suspended iterator resumed after others read from "
+         "the source goes on as if their items had never been there. Per-run facts obligation by `decide` on tables regenerated from "
          "/repo (no builder method writes self, _add_op builds a new list and forwards the sentinel, _iterate's "
-         "SKIP/STOP branches, reversed-stack fold, callback table); model tied to the code by differential "
-         "execution (items, end/exception class, number of source items pulled, repr/behaviour of a re-used "
-         "prefix spec) through the compiled Lean driver.",
+         "SKIP/STOP branches, _iterate uses the target's iterator as the iterable of its for loop and for nothing "
+         "else, reversed-stack fold, callback table); model tied to the code by differential "
+         "execution (items, end/exception class, number of source items pulled, what next() finds on the source "
+         "object afterwards and whether close() was called on it, several pipelines and suspended iterators over "
+         "one source object, repr/behaviour of a re-used prefix spec, behaviour of eval(repr(spec)) for chains of "
+         "literal arguments) through the compiled Lean driver.",
     note="partial because itertools' islice/takewhile/dropwhile/chain and boltons' chunked_iter/windowed_iter/"
          "split_iter/unique_iter/first are external code: their pull behaviour is modelled from documentation "
          "and observed behaviour (islice mirrors CPython's cnt/next counters) and validated only by the "
@@ -44,7 +52,18 @@ RULE = ('type-directed: the element type (int / list / tuple) is tracked through
         'finite-then-raising, or infinite with a pull budget) that counts pulls. Also exhaustive: all stage '
         'sequences up to length 2 (quick) / 3, and 4 on one source (thorough) over the eleven builder methods '
         'x sources x every k <= 6; and Invoke.constants/specs/star histories. non-trivial = >= 2 chained '
-        'stages, or a re-used prefix with a non-empty first derivation, or a run ending in an exception; '
+        'stages, or a re-used prefix with a non-empty first derivation, or a run ending in an exception. '
+        'Sources are objects that are their own iterator — a generator, an object with __next__ and close(), one '
+        'without close() — instrumented to count pulls and record close(); after every run the harness calls '
+        'next() on the source up to R times: the items must be those after the pulled prefix. Stop values '
+        '(the sentinel, items on which the subspec returns STOP) are planted at 1-3 uniformly chosen positions. '
+        'Reuse cases: 1-2 pipelines and 1-4 steps over ONE source object — take k (the iterator stays suspended '
+        'and is resumed by a later step), all(), first() as separate glom calls, or all()/first() as the values of '
+        'one dict spec — every step must yield the composition over the items remaining at that point. Parameter '
+        'sweep: every builder method in every call form (each optional argument absent / present: chunked fill, '
+        'split sep scalar / set / callable and maxsplit, slice arities with None, limit 0 / beyond the length, '
+        'default keys of filter / takewhile / dropwhile / unique, first() / first(default=) / first(key, default=)) '
+        'x sources shorter than / equal to / longer than the sizes, with consecutive separators and colliding keys; '
         'distinct = distinct (spec, source, k, mode)')
 TRUSTED = ["itertools (islice, takewhile, dropwhile, chain, map, filter) and boltons.iterutils (chunked_iter, "
            "windowed_iter, split_iter, unique_iter, first): modelled from documentation/observed behaviour, "
@@ -53,7 +72,10 @@ TRUSTED = ["itertools (islice, takewhile, dropwhile, chain, map, filter) and bol
 ASSUMPTIONS = ['stream elements are ints, None, lists, tuples; SKIP/STOP only as results of the base subspec',
                'chunked/windowed size >= 1, islice step >= 1, maxsplit != 0',
                'sentinel is None or an int in CPython\'s small-int range (so `is` coincides with ==)',
-               'infinite sources are observed through a pull budget of %d items' % 40]
+               'infinite sources are observed through a pull budget of %d items' % 40,
+               'split(maxsplit=0) yields the iterator object itself: outside the value domain, not generated',
+               'the source after a run is observed on targets that are their own iterator; a source that raises '
+               'at its end is not asked beyond its last item']
 
 BUDGET = 40
 
@@ -365,8 +387,33 @@ def run_impl(case):
     else:
         main = run_first(d2, src, mode, cat, sk, r)
     out['impl'] = {'main': main, 'repr_same': r0 == r1, 'before': before, 'after': after,
-                   'reused': reused, 'fresh': fresh}
+                   'reused': reused, 'fresh': fresh, 'repr_rt': None}
+    if literal_chain(case):
+        # the repr names every stage with all its arguments: evaluating it gives the same pipeline
+        import glom
+        try:
+            again = eval(repr(d2), {'Iter': glom.Iter, 'T': glom.T})
+        except Exception:
+            again = None
+        if isinstance(again, glom.Iter):
+            out['impl']['repr_rt'] = run_take(again, src, k, sk, r)
+        else:
+            out['impl']['repr_rt'] = {'items': [], 'fin': {'raised': 'ReprNotEvaluable'}, 'pulls': 0,
+                                      'src_after': reused['src_after']}
     return out
+
+
+def literal_chain(case):
+    """every argument of the chain is a literal (no callables: their repr is not evaluable).
+    `Iter(sentinel=s)` is left out: the repr of an Iter does not show its sentinel."""
+    if case['sub'] != 'T' or case.get('sentinel') is not None:
+        return False
+    for op in case['p'] + case['e2']:
+        if op.get('f') is not None or op['op'] == 'map':
+            return False
+        if isinstance(op.get('sep'), dict) and 'fn' in op['sep']:
+            return False
+    return True
 
 
 # ----------------------------------------------------------------------------- one source, several pipelines
